@@ -118,3 +118,22 @@ def stage_C20(cfg, a, binp, workdir, known, known_hits):
                     "replay": "cd /repo && go test -race -tags verif -count=1 -run TestVerifFanOutRace ./blockstream/", "output": o[-6000:]})
         return [(p, "" if found else " no-failing-input-found")], ev
     return [], ev
+
+
+def coqchk_stage(cfg, a):
+    """coqchk -silent -o on the property modules of cfg (thorough tier)"""
+    import re
+    pid = cfg["id"]
+    mods = ["BV." + m for m in cfg["property_modules"]]
+    try:
+        rc, o = core.sh(["coqchk", "-silent", "-o", "-Q", core.COQ, "BV"] + mods, cwd=core.COQ, timeout=7200)
+    except subprocess.TimeoutExpired:
+        rc, o = 1, "coqchk timed out"
+    m = re.search(r"\* Axioms:\s*(.*?)\n\s*\n", o, re.S)
+    axioms = re.sub(r"\s+", " ", m.group(1)).strip() if m else "?"
+    ev = {"coqchk": "coqchk -silent -o %s: exit %d, axioms: %s" % (" ".join(mods), rc, axioms)}
+    if rc != 0 or axioms != "<none>":
+        p = _write(pid, "%s_seed%d_coqchk.json" % (a.tier, a.seed),
+                   {"property": pid, "no_longer_checks": "coqchk on the property modules (exit %d, axioms: %s)" % (rc, axioms), "output": o[-4000:]})
+        return [(p, " no-failing-input-found")], ev
+    return [], ev
